@@ -261,6 +261,16 @@ def programs(n_yields):
              spec=lambda: chain(T) + (lambda t: (_ for _ in ()).throw(t['cls']('nf')),),
              post=lambda target, o: ('caught-as-own-class', (not o.ok) and isinstance(o.exc, target['cls']),
                                      'bases', sorted(b.__name__ for b in type(o.exc).__mro__ if b.__name__ in ('LookupError', 'ValueError')) == sorted(b.__name__ for b in target['cls'].__mro__ if b.__name__ in ('LookupError', 'ValueError')) if not o.ok else None)),
+        # calls that have already caught and KEPT an "unregistered target" error of a branch (for their trace) when they yield, while
+        # other calls fail with an error of the same kind (same operation, same type) at another path: each call's trace shows
+        # its own path on its own failed branch
+        dict(name='kept-unregistered-error-rows', family='kept-error', target=lambda: {'rows': 3, 'x': 1},
+             spec=lambda: Coalesce(('rows', [T]), chain(T) + ('zz_missing',))),
+        dict(name='kept-unregistered-error-deep', family='kept-error', target=lambda: {'deep': {'count': 5}},
+             spec=lambda: Coalesce(('deep', 'count', [T]), ('deep', Coalesce(('count', Iter().all()), chain(T) + (T['nope'],))))),
+        dict(name='unregistered-elsewhere', family='kept-error', target=lambda: {'total': 3}, spec=lambda: chain(T) + (('total', [T]),)),
+        dict(name='unregistered-elsewhere-with-default', family='kept-error', target=lambda: {'n': [7, 8]},
+             spec=lambda: chain(T) + (Coalesce(('n', T[0], [T]), default='not iterable'),)),
         # container literals in ARGUMENT position whose construction is interrupted by a yield point; the spec objects are
         # shared between threads (a memo keyed by id(spec) that outlives one call would hand one call another call's value)
         dict(name='shared-arg-default', target=lambda: {'v': threading.get_ident()}, spec=lambda: _shared_arg('default', n_yields)),
